@@ -1,179 +1,2 @@
-(* GENERATED by harness/translate.py from locks.py -- do not edit.
-   Regenerated on every check run from /repo's working tree. *)
-From Coq Require Import List NArith ZArith Bool String.
-Import ListNotations.
-
-Definition ls_first_test (c : nat) : bool := Nat.eqb c 1.
-Definition ls_last_test (c : nat) : bool := Nat.eqb c 0.
-Definition ls_fail_reset : option nat := Some 0.
-Definition downgrade_fixed : bool := true.
-Definition legacy_downgrade_counter : nat := 1.
-Definition method_digests : list (string * string) := [
-  ("remaining"%string, "5c48cbea71fe7cd96b02618f"%string);
-  ("LightSwitch.__init__"%string, "4fed69c74f7fedee71dd87e5"%string);
-  ("LightSwitch.acquire"%string, "f3c582c1b1c676974ada318e"%string);
-  ("LightSwitch.release"%string, "be30b053a8559d517a2a0f7a"%string);
-  ("RWLockState.__init__"%string, "be3788cf830cc4424fa6a15e"%string);
-  ("RWLock.__init__"%string, "888bbf0fb8fa7f34ca252033"%string);
-  ("_BaseLock.__init__"%string, "2a447a7b0a4c0c7d57d16433"%string);
-  ("_BaseLock._get_state"%string, "0398ebb61f7492e00b67067e"%string);
-  ("_ReadLock.__init__"%string, "5b8a69c820f64654aea22408"%string);
-  ("_ReadLock.acquire"%string, "1be029f4131a79524b48a69a"%string);
-  ("_ReadLock.release"%string, "712cdce1ab82e96d145a648a"%string);
-  ("_WriteLock.__init__"%string, "576461e67b0c46269d79060d"%string);
-  ("_WriteLock.acquire"%string, "91693d7d4b9f8e6ef04cc90b"%string);
-  ("_WriteLock.release"%string, "cae68988a03ab9efba396dd7"%string)].
-Definition skel_module_remaining : list string := [
-  "timeout, start"%string;
-  "return -1 if timeout == -1 else timeout - (monotonic() - start)"%string].
-Definition skel_LightSwitch_init_ : list string := [
-  "self, lock"%string;
-  "self._counter = 0"%string;
-  "self._lock = lock"%string;
-  "self._mutex = threading.Lock()"%string].
-Definition skel_LightSwitch_acquire : list string := [
-  "self, blocking=True, timeout=-1"%string;
-  "start = monotonic()"%string;
-  "if not self._mutex.acquire(blocking, timeout)"%string;
-  "return False"%string;
-  "endif"%string;
-  "try"%string;
-  "self._counter += 1"%string;
-  "if self._counter == 1"%string;
-  "if self._lock.acquire(blocking, remaining(timeout, start))"%string;
-  "return True"%string;
-  "else"%string;
-  "self._counter = 0"%string;
-  "return False"%string;
-  "endif"%string;
-  "else"%string;
-  "return True"%string;
-  "endif"%string;
-  "finally"%string;
-  "self._mutex.release()"%string;
-  "endtry"%string].
-Definition skel_LightSwitch_release : list string := [
-  "self"%string;
-  "with self._mutex"%string;
-  "if not self._counter"%string;
-  "raise RuntimeError('Attempt to release an unacquired Switch')"%string;
-  "endif"%string;
-  "self._counter -= 1"%string;
-  "if self._counter == 0"%string;
-  "self._lock.release()"%string;
-  "endif"%string;
-  "endwith"%string].
-Definition skel_RWLockState_init_ : list string := [
-  "self"%string;
-  "self.read = 0"%string;
-  "self.write = 0"%string;
-  "self.ignored = 0"%string].
-Definition skel_RWLock_init_ : list string := [
-  "self"%string;
-  "local = threading.local()"%string;
-  "block_writers = threading.Lock()"%string;
-  "block_readers = threading.Lock()"%string;
-  "read_switch = LightSwitch(block_writers)"%string;
-  "self.read = _ReadLock(local, read_switch, block_readers)"%string;
-  "self.write = _WriteLock(local, read_switch, block_readers, block_writers)"%string].
-Definition skel_BaseLock_init_ : list string := [
-  "self, local"%string;
-  "self._local = local"%string].
-Definition skel_BaseLock_get_state : list string := [
-  "self"%string;
-  "try"%string;
-  "state = self._local.state"%string;
-  "except AttributeError"%string;
-  "state = self._local.state = RWLockState()"%string;
-  "endtry"%string;
-  "return state"%string].
-Definition skel_ReadLock_init_ : list string := [
-  "self, local, read_switch, block_readers"%string;
-  "super().__init__(local)"%string;
-  "self._read_switch = read_switch"%string;
-  "self._block_readers = block_readers"%string].
-Definition skel_ReadLock_acquire : list string := [
-  "self, blocking=True, timeout=-1"%string;
-  "start = monotonic()"%string;
-  "state = self._get_state()"%string;
-  "if state.write > 0"%string;
-  "state.ignored += 1"%string;
-  "return True"%string;
-  "endif"%string;
-  "if state.read > 0"%string;
-  "state.read += 1"%string;
-  "return True"%string;
-  "endif"%string;
-  "if not self._block_readers.acquire(blocking, timeout)"%string;
-  "return False"%string;
-  "endif"%string;
-  "self._block_readers.release()"%string;
-  "if not self._read_switch.acquire(blocking, remaining(timeout, start))"%string;
-  "return False"%string;
-  "endif"%string;
-  "state.read = 1"%string;
-  "return True"%string].
-Definition skel_ReadLock_release : list string := [
-  "self"%string;
-  "state = self._get_state()"%string;
-  "if state.write > 0"%string;
-  "assert state.ignored > 0"%string;
-  "state.ignored -= 1"%string;
-  "return"%string;
-  "endif"%string;
-  "assert state.read > 0"%string;
-  "state.read -= 1"%string;
-  "if state.read > 0"%string;
-  "return"%string;
-  "endif"%string;
-  "self._read_switch.release()"%string].
-Definition skel_WriteLock_init_ : list string := [
-  "self, local, read_switch, block_readers, block_writers"%string;
-  "super().__init__(local)"%string;
-  "self._read_switch = read_switch"%string;
-  "self._block_readers = block_readers"%string;
-  "self._block_writers = block_writers"%string].
-Definition skel_WriteLock_acquire : list string := [
-  "self, blocking=True, timeout=-1"%string;
-  "start = monotonic()"%string;
-  "state = self._get_state()"%string;
-  "if state.write > 0"%string;
-  "state.write += 1"%string;
-  "return True"%string;
-  "endif"%string;
-  "if state.read > 0"%string;
-  "assert state.ignored == 0"%string;
-  "self._read_switch.release()"%string;
-  "endif"%string;
-  "if not self._block_readers.acquire(blocking, remaining(timeout, start))"%string;
-  "if state.read > 0"%string;
-  "self._read_switch.acquire()"%string;
-  "endif"%string;
-  "return False"%string;
-  "endif"%string;
-  "if not self._block_writers.acquire(blocking, remaining(timeout, start))"%string;
-  "self._block_readers.release()"%string;
-  "if state.read > 0"%string;
-  "self._read_switch.acquire()"%string;
-  "endif"%string;
-  "return False"%string;
-  "endif"%string;
-  "state.write = 1"%string;
-  "return True"%string].
-Definition skel_WriteLock_release : list string := [
-  "self"%string;
-  "state = self._get_state()"%string;
-  "assert state.write > 0"%string;
-  "state.write -= 1"%string;
-  "if state.write > 0"%string;
-  "return"%string;
-  "endif"%string;
-  "if state.read > 0"%string;
-  "assert state.ignored == 0"%string;
-  "self._block_writers.release()"%string;
-  "self._read_switch.acquire()"%string;
-  "self._block_readers.release()"%string;
-  "return"%string;
-  "endif"%string;
-  "self._block_readers.release()"%string;
-  "self._block_writers.release()"%string].
+(* translation failed: TranslateError: RWLock: unexpected class-level statement *)
+Definition translation_failed : False := I.
